@@ -10,15 +10,15 @@ ASSUMPTIONS = [
     "trusted: clang 14 + ASan/UBSan, rapidcheck, the tracking allocator in engine/allocwrap.h",
 ]
 SUBS = [
-    dict(name="elasticarray", quick=dict(cases=60, shards=2), thorough=dict(cases=500, shards=2)),
-    dict(name="ptrheap", quick=dict(cases=60, shards=1), thorough=dict(cases=500, shards=1)),
-    dict(name="elasticqueue", quick=dict(cases=60, shards=1), thorough=dict(cases=500, shards=1)),
-    dict(name="seqptrmap", quick=dict(cases=60, shards=1), thorough=dict(cases=500, shards=1)),
-    dict(name="timerqueue", quick=dict(cases=60, shards=1), thorough=dict(cases=500, shards=1)),
-    dict(name="events", quick=dict(cases=30, shards=3), thorough=dict(cases=400, shards=3)),
-    dict(name="io", quick=dict(cases=30, shards=3), thorough=dict(cases=400, shards=3)),
-    dict(name="netbuf", quick=dict(cases=30, shards=2), thorough=dict(cases=400, shards=2)),
-    dict(name="addr", quick=dict(cases=40, shards=1), thorough=dict(cases=400, shards=1)),
+    dict(name="elasticarray", quick=dict(cases=60, shards=2), thorough=dict(cases=1500, shards=2)),
+    dict(name="ptrheap", quick=dict(cases=60, shards=1), thorough=dict(cases=1500, shards=1)),
+    dict(name="elasticqueue", quick=dict(cases=60, shards=1), thorough=dict(cases=1500, shards=1)),
+    dict(name="seqptrmap", quick=dict(cases=60, shards=1), thorough=dict(cases=1500, shards=1)),
+    dict(name="timerqueue", quick=dict(cases=60, shards=1), thorough=dict(cases=1500, shards=1)),
+    dict(name="events", quick=dict(cases=30, shards=3), thorough=dict(cases=1200, shards=3)),
+    dict(name="io", quick=dict(cases=30, shards=3), thorough=dict(cases=1200, shards=3)),
+    dict(name="netbuf", quick=dict(cases=30, shards=2), thorough=dict(cases=1200, shards=2)),
+    dict(name="addr", quick=dict(cases=40, shards=1), thorough=dict(cases=1200, shards=1)),
     dict(name="http", quick=dict(cases=12, shards=2), thorough=dict(cases=24, shards=2)),
 ]
 WRAPS = ["poll", "recv", "send", "connect", "accept", "getsockopt", "setsockopt", "socket", "close", "bind", "fcntl",
